@@ -29,7 +29,8 @@ QUICK_RUNS = 4000
 THOROUGH_RUNS = 250_000
 EXPECT_PROBES = ["subscription_during_stream", "duplicate_request", "unknown_component_request", "back_to_back_subscriptions",
                  "request_same_iteration_as_message", "all_four_categories",
-                 "actor_restarted_after_api_failure", "device_clock_coarse", "device_clock_steps_back"]
+                 "actor_restarted_after_api_failure", "device_clock_coarse", "device_clock_steps_back",
+                 "subscription_while_api_stream_opening"]
 
 
 def scenario(sim: Sim) -> None:
@@ -42,13 +43,38 @@ def scenario(sim: Sim) -> None:
 
     M = ComponentMetricId
     ch = sim.ch
-    # component id -> (category, builder, {metric: offset})
+    # Every field of a message carries n + k/64 with its own k, n being the per-component sequence number; the table
+    # below is written from the meaning of the metric names (not taken from the code under test): metric -> field.
+    F = {"active_power": 0, "active_power_per_phase": (1, 2, 3), "current_per_phase": (4, 5, 6), "voltage_per_phase": (7, 8, 9),
+         "frequency": 10, "reactive_power": 11, "reactive_power_per_phase": (12, 13, 14),
+         "active_power_inclusion_lower_bound": 15, "active_power_exclusion_lower_bound": 16,
+         "active_power_exclusion_upper_bound": 17, "active_power_inclusion_upper_bound": 18,
+         "soc": 0, "soc_lower_bound": 19, "soc_upper_bound": 20, "capacity": 21, "power_inclusion_lower_bound": 22,
+         "power_exclusion_lower_bound": 23, "power_exclusion_upper_bound": 24, "power_inclusion_upper_bound": 25,
+         "temperature": 26}
+    ac = {M.ACTIVE_POWER: F["active_power"], M.FREQUENCY: F["frequency"], M.REACTIVE_POWER: F["reactive_power"]}
+    for ph in range(3):
+        ac[getattr(M, f"ACTIVE_POWER_PHASE_{ph + 1}")] = F["active_power_per_phase"][ph]
+        ac[getattr(M, f"REACTIVE_POWER_PHASE_{ph + 1}")] = F["reactive_power_per_phase"][ph]
+        ac[getattr(M, f"CURRENT_PHASE_{ph + 1}")] = F["current_per_phase"][ph]
+        ac[getattr(M, f"VOLTAGE_PHASE_{ph + 1}")] = F["voltage_per_phase"][ph]
+    inv = dict(ac)
+    inv.update({M.ACTIVE_POWER_INCLUSION_LOWER_BOUND: F["active_power_inclusion_lower_bound"],
+                M.ACTIVE_POWER_EXCLUSION_LOWER_BOUND: F["active_power_exclusion_lower_bound"],
+                M.ACTIVE_POWER_EXCLUSION_UPPER_BOUND: F["active_power_exclusion_upper_bound"],
+                M.ACTIVE_POWER_INCLUSION_UPPER_BOUND: F["active_power_inclusion_upper_bound"]})
+    bat = {M.SOC: F["soc"], M.SOC_LOWER_BOUND: F["soc_lower_bound"], M.SOC_UPPER_BOUND: F["soc_upper_bound"],
+           M.CAPACITY: F["capacity"], M.TEMPERATURE: F["temperature"],
+           M.POWER_INCLUSION_LOWER_BOUND: F["power_inclusion_lower_bound"],
+           M.POWER_EXCLUSION_LOWER_BOUND: F["power_exclusion_lower_bound"],
+           M.POWER_EXCLUSION_UPPER_BOUND: F["power_exclusion_upper_bound"],
+           M.POWER_INCLUSION_UPPER_BOUND: F["power_inclusion_upper_bound"]}
+    # component kind -> (category, {metric: offset of its field})
     kinds = {
-        "meter": (ComponentCategory.METER, {M.ACTIVE_POWER: 0.0, M.FREQUENCY: 0.5, M.REACTIVE_POWER: 0.125}),
-        "inverter": (ComponentCategory.INVERTER, {M.ACTIVE_POWER: 0.0, M.FREQUENCY: 0.5,
-                                                  M.ACTIVE_POWER_INCLUSION_LOWER_BOUND: 0.25}),
-        "battery": (ComponentCategory.BATTERY, {M.SOC: 0.0, M.CAPACITY: 0.5, M.TEMPERATURE: 0.25}),
-        "ev": (ComponentCategory.EV_CHARGER, {M.ACTIVE_POWER: 0.0, M.FREQUENCY: 0.5}),
+        "meter": (ComponentCategory.METER, {m: k / 64 for m, k in ac.items()}),
+        "inverter": (ComponentCategory.INVERTER, {m: k / 64 for m, k in inv.items()}),
+        "battery": (ComponentCategory.BATTERY, {m: k / 64 for m, k in bat.items()}),
+        "ev": (ComponentCategory.EV_CHARGER, {m: k / 64 for m, k in ac.items()}),
     }
     layout = ["meter", "inverter", "battery", "ev", "meter"][: ch.int_between("ncomp", 3, 5)]
     if len(set(layout)) == 4:
@@ -84,14 +110,24 @@ def scenario(sim: Sim) -> None:
     def build(cid: int, n: int) -> Any:
         k = cinfo[cid]
         ts = ts_of(n)
-        f = float(n)
+
+        def fld(name: str) -> Any:
+            o = F[name]
+            return tuple(n + x / 64 for x in o) if isinstance(o, tuple) else n + o / 64
+
+        acf = {x: fld(x) for x in ("active_power", "active_power_per_phase", "current_per_phase", "voltage_per_phase",
+                                   "frequency", "reactive_power", "reactive_power_per_phase")}
+        bounds = {x: fld(x) for x in ("active_power_inclusion_lower_bound", "active_power_exclusion_lower_bound",
+                                      "active_power_exclusion_upper_bound", "active_power_inclusion_upper_bound")}
         if k == "meter":
-            return fakes.meter_data(cid, ts, active_power=f, frequency=f + 0.5, reactive_power=f + 0.125)
+            return fakes.meter_data(cid, ts, **acf)
         if k == "inverter":
-            return fakes.inverter_data(cid, ts, active_power=f, frequency=f + 0.5, active_power_inclusion_lower_bound=f + 0.25)
+            return fakes.inverter_data(cid, ts, **acf, **bounds)
         if k == "battery":
-            return fakes.battery_data(cid, ts, soc=f, capacity=f + 0.5, temperature=f + 0.25)
-        return fakes.ev_data(cid, ts, active_power=f, frequency=f + 0.5)
+            return fakes.battery_data(cid, ts, **{x: fld(x) for x in (
+                "soc", "soc_lower_bound", "soc_upper_bound", "capacity", "temperature", "power_inclusion_lower_bound",
+                "power_exclusion_lower_bound", "power_exclusion_upper_bound", "power_inclusion_upper_bound")})
+        return fakes.ev_data(cid, ts, **acf, **bounds)
 
     restart_delay_us = ch.choice("restart_delay_us", [2_000_000, 0, 50_000])
     seq = {c: 0 for c in cids}                 # messages sent so far per component
@@ -100,20 +136,49 @@ def scenario(sim: Sim) -> None:
     awaiting_idle: list[dict[str, Any]] = []
     streaming: set[int] = set()
 
+    # opening a component's API stream takes time in some runs (the client call is an `async def`): subscriptions that
+    # arrive while it is in flight cancel and restart the opening; all of them must be served once it is open
+    opening: dict[int, int] = {}
+    slow_open = ch.chance("slow_api_stream_opening", 0.3)
+    if slow_open:
+        api.open_delay_fn = lambda cid: ch.choice("open_delay_us", [0, 500, 20_000, 300_000])
+
+        def on_open(cid: int, begin: bool) -> None:
+            opening[cid] = opening.get(cid, 0) + (1 if begin else -1)
+            if begin and any(s2["cid"] == cid for s2 in subs.values()) and len([1 for s2 in subs.values() if s2["cid"] == cid]) > 1:
+                sim.probe("subscription_while_api_stream_opening")
+
+        api.on_open = on_open
+
+    restarting = [False]    # the actor is inside its restart delay (observed, a stall can stretch it)
+
     def on_idle() -> None:
         for c in cids:
             seq_idle[c] = seq[c]
-        if api.components_failures or (api.failure_times and sim.now_us <= api.failure_times[-1] + restart_delay_us + 1000):
+        if api.components_failures or restarting[0] or (
+                api.failure_times and sim.now_us <= api.failure_times[-1] + restart_delay_us + 1000):
             return      # the actor is (about to be) waiting out its restart delay: requests are not consumed yet
-        for s in awaiting_idle:
+        for s in list(awaiting_idle):
+            if opening.get(s["cid"], 0):
+                continue    # the API stream of this component is still being opened: nothing can flow yet
             s["settled_seq"] = seq[s["cid"]]
-        awaiting_idle.clear()
+            awaiting_idle.remove(s)
 
     async def main() -> None:
         reg = ChannelRegistry(name="reg")
         req_ch: Any = Broadcast(name="ds-requests")
         actor = DataSourcingActor(req_ch.new_receiver(limit=1000), reg)
         type(actor).RESTART_DELAY = timedelta(microseconds=restart_delay_us)
+        orig_delay = actor._delay_if_restart
+
+        async def observed_delay(iteration: int) -> None:
+            restarting[0] = iteration > 0
+            try:
+                await orig_delay(iteration)
+            finally:
+                restarting[0] = False
+
+        actor._delay_if_restart = observed_delay  # type: ignore[method-assign]
         actor.start()
         req_tx = req_ch.new_sender()
         await asyncio.sleep(0.001)
